@@ -46,6 +46,13 @@ CHECKS = {
         note="Frozen dyadic clock (every operation takes 1/64 s) so that 'age >= limit' / 'age > timeout' are decided identically by oracle and code; each implementation keeps its own time line. Parent/child runners are represented at the heartbeat interface (process runners: C14).",
         design_ref="§2 C04",
     ),
+    "C05": dict(
+        engine="enum+sched",
+        technique="exhaustive enumeration of a value/exception catalogue x serializer x backend x externalisation threshold through the real run()/result path + deviation-bounded schedule exploration of a reader polling status/result against the finishing worker",
+        text="Values: 28 results (scalars incl. NaN, -0.0, 2^63, unicode, strings straddling the threshold, nested lists/dicts, Enum/IntEnum) and 10 exceptions (builtin with 0-2 args, user-defined, RetryError, PynencError subclass with fields) x {Json, JsonPickle, Pickle} x {memory, SQLite} x 3 (7) thresholds: produced by a real task body via run(), read by a fresh client-side invocation object (another app object for SQLite); SUCCESS must come with an equal value (type-, NaN-, signed-zero-aware), FAILED with the same exception class and args; at REGISTERED and PENDING get_final_result must raise. Schedules: reader (status, then final result, 3-4 polls) against the worker for success / externalised success / failure / retry-then-success, all schedules with <= 2 (3) deviations, line points incl. the in-memory data store, SQL-statement points for SQLite.",
+        note="The recursive value domain per serializer is explored in C15; this check fixes a catalogue and varies the path. A value returned by get_final_result after a non-final status read is judged against the status re-read afterwards (finals are absorbing).",
+        design_ref="§2 C05",
+    ),
     "C06": dict(
         engine="bfs+sched",
         technique="explicit-state BFS over submit/batch/poll/start/finish/fail/kill histories with parked task bodies on both backends (from the empty and from seeded non-initial states) + deviation-bounded schedule exploration of two poller+worker actors with the RUNNING-per-key invariant evaluated on the visible concrete state at every scheduling point",
